@@ -321,7 +321,7 @@ func c03Judge(b *Bed, q *c03Query) (sig, what string) {
 		return "duplicate-response", fmt.Sprintf("%s: %d responses for one query", cell, len(q.Resps))
 	}
 	rp := q.Resps[0]
-	if d := time.Duration(rp.T - q.TSend); d > 9*time.Second {
+	if d := time.Duration(rp.T - q.TSend); d > 7500*time.Millisecond { // 6 s request deadline + 1.5 s slack; confirmed by re-runs
 		return "late-response", fmt.Sprintf("%s: response after %v", cell, d)
 	}
 	m := new(dns.Msg)
@@ -389,6 +389,12 @@ func runC03(c *Ctx) {
 						}
 						seq++
 						qs = append(qs, c03Build(r, listener, up, oc, "", seq))
+					}
+					if phase == 1 && up == "udp" {
+						// truncated UDP reply after 2 s, then a TCP side that never answers: the request deadline
+						// covers both legs
+						seq++
+						qs = append(qs, c03Build(r, listener, up, "tcs-d2000", "", seq))
 					}
 					if phase == 0 {
 						for _, sh := range []string{"rd0", "opcode", "qd0", "qd2", "qd3", "opt", "norule"} {
